@@ -27,6 +27,9 @@ def grids():
     # anisotropic grid with a two-cell cluster whose equal-volume disk covers NO cell centre (refinement has nothing
     # to fit there) next to an ordinary droplet: every result must still have the requested class
     out.append(("cartesian", "c2tiny", CartesianGrid([[0, 12], [0, 2.4]], [12, 24]), [[8.5, 1.2], "tiny"], 0.8))
+    # droplets cut by a wall of a non-periodic box: only a cap is visible and the fitted centre lies outside the grid
+    out.append(("cartesian", "c2wall", CartesianGrid([[0, 20], [0, 14]], [20, 14], periodic=[False, True]), [[13.0, 7.0], [-1.2, 7.0]], 3.6))
+    out.append(("cylindrical", "cylwall", CylindricalSymGrid(5, [0, 18], [5, 18]), [[0, 0, 11.0], [0, 0, -1.3]], 3.2))
     out.append(("polar", "polar", PolarSymGrid(8, 16), [[0.0, 0.0]], 3.2))
     out.append(("spherical", "spherical", SphericalSymGrid(8, 16), [[0.0, 0.0, 0.0]], 3.2))
     return out
